@@ -213,10 +213,11 @@ func runC18(c c18Case, r *rep.Report) (key, msg string, stats map[string]int64) 
 			}
 			// the open packet's hand-off happened before the session was announced: its
 			// server-level events may lead the pattern
-			ps := strings.Join(pattern, " ")
+			ps := strings.Join(pattern, " ") + " "
 			ps = strings.TrimPrefix(ps, "SF SD ")
 			ps = strings.TrimPrefix(ps, "SD ")
-			if strings.ReplaceAll(ps+" ", "F SF D SD ", "") != "" {
+			ps = strings.TrimSpace(ps)
+			if strings.ReplaceAll(ps+" ", "F SF D SD ", "") != "" && ps != "" {
 				key, msg = "c18-flush-drain-order", fmt.Sprintf("event order per hand-off must be flush, server flush, drain, server drain; observed: %s", ps)
 				return
 			}
@@ -300,6 +301,76 @@ func runC18(c c18Case, r *rep.Report) (key, msg string, stats map[string]int64) 
 	return
 }
 
+// runC18DrainAcrossUpgrade holds the polling transport's writer goroutine inside onDrain, after
+// it has taken the callback group of the last polling batch (hook socket.onDrain.afterShift),
+// completes an upgrade to WebSocket and sends again: the callback of the later send must not
+// run before the callback of the earlier one.
+func runC18DrainAcrossUpgrade(r *rep.Report) (key, msg string, held bool) {
+	rig.Bubble(r.T(), func() {
+		so := &config.ServerOptions{}
+		so.SetTransports(types.NewSet("polling", "websocket"))
+		so.SetPingInterval(20 * time.Second)
+		w := rig.NewWorld(rig.Options{Server: so})
+		defer w.Finish()
+		cl, err := w.Connect(rig.ClientCfg{Rev: 4, Transport: "polling"})
+		rig.Wait()
+		sock := w.Socket(0)
+		if err != nil || sock == nil {
+			key, msg = "c18-handshake-failed", fmt.Sprint(err)
+			return
+		}
+		var mu sync.Mutex
+		var order []string
+		cb := func(id string) engine.SendCallback {
+			return func(transports.Transport) { mu.Lock(); order = append(order, id); mu.Unlock() }
+		}
+		// one poll takes m0; the client does not poll again (it is about to upgrade)
+		x := cl.PollStart()
+		time.Sleep(time.Millisecond)
+		rig.Wait()
+		w.Gate.Arm("socket.onDrain.afterShift", 1)
+		sock.Send(types.NewStringBufferString("m0"), nil, cb("m0"))
+		rig.Settle()
+		if !x.Done() || len(w.Gate.Parked()) != 1 {
+			r.Inconclusive("drain-across-upgrade: the polling writer was not held in onDrain")
+			w.Gate.ReleaseAll()
+			return
+		}
+		held = true
+		// the writer goroutine owns the polling transport's mutex from here on: settle on real time
+		cand := w.Candidate(sock.Id(), 4)
+		if e := cand.DialCandidateWS(); e != nil {
+			key, msg = "c18-handshake-failed", e.Error()
+			w.Gate.ReleaseAll()
+			return
+		}
+		rig.Settle()
+		cand.WSWriteRaw(false, []byte("2probe"))
+		rig.Settle()
+		cand.WSWriteRaw(false, []byte("5"))
+		rig.Settle()
+		if !sock.Upgraded() {
+			r.Inconclusive("drain-across-upgrade: the upgrade did not complete while the polling writer was held")
+			w.Gate.ReleaseAll()
+			return
+		}
+		sock.Send(types.NewStringBufferString("m1"), nil, cb("m1"))
+		rig.Settle()
+		rig.Settle()
+		w.Gate.ReleaseAll()
+		time.Sleep(100 * time.Millisecond)
+		rig.Wait()
+		mu.Lock()
+		got := strings.Join(order, ",")
+		mu.Unlock()
+		if got != "m0,m1" && got != "m0" {
+			key, msg = "c18-callback-order", fmt.Sprintf("the polling writer is between taking m0's callback group and running it when the upgrade completes and m1 is sent over WebSocket: callbacks ran in the order [%s]", got)
+		}
+		cl.Stop()
+	})
+	return
+}
+
 // ---------- re-entrancy (real time, outside a bubble) ----------
 
 var reEvents = []string{"packetCreate", "flush", "drain", "message", "heartbeat", "close", "srv:flush", "srv:drain", "srv:connection", "callback", "upgrade"}
@@ -357,6 +428,22 @@ func runReentrancy(event, action, transport string) (key, msg string, reached bo
 	}
 	cl, err := w.Connect(rig.ClientCfg{Rev: 4, Transport: transport})
 	if err != nil {
+		if event == "srv:connection" && action != "Send" {
+			// the connection listener closed the session: whether the client still gets its open
+			// packet is a race the statement does not decide; what is judged is that the listener's
+			// own call came back
+			dl := time.Now().Add(3 * time.Second)
+			for time.Now().Before(dl) && !(entered.Load() && returned.Load()) {
+				time.Sleep(2 * time.Millisecond)
+			}
+			if returned.Load() {
+				return "", "", true
+			}
+			if proof := reentrancyProof(); proof != "" {
+				return fmt.Sprintf("c18-listener-reentrancy-deadlock:%s:%s", event, action), fmt.Sprintf("a %s listener calling %s on a %s session never returned; three seconds later its goroutine is still waiting for a lock: %s", event, action, transport, proof), true
+			}
+			return "", "inconclusive: action did not return within 3 s but the dump shows no self-deadlock", true
+		}
 		return "c18-handshake-failed", err.Error(), false
 	}
 	deadline := time.Now().Add(3 * time.Second)
@@ -397,18 +484,7 @@ func runReentrancy(event, action, transport string) (key, msg string, reached bo
 		return "", "", false
 	}
 	if !returned.Load() {
-		// proof obligation: a goroutine inside the action, blocked on a lock it already holds
-		buf := make([]byte, 1<<20)
-		n := runtime.Stack(buf, true)
-		proof := ""
-		for _, g := range strings.Split(string(buf[:n]), "\n\n") {
-			// the goroutine that is inside the listener's action (runReentrancy.func1 = act) and,
-			// three seconds later, still waiting to acquire a lock of the code under test
-			if strings.Contains(g, "runReentrancy.func1") && (strings.Contains(g, "sync.(*Mutex).Lock") || strings.Contains(g, "sync.(*RWMutex).Lock") || strings.Contains(g, "sync.(*RWMutex).RLock")) {
-				proof = rig.TopFrames(g, 14)
-				break
-			}
-		}
+		proof := reentrancyProof()
 		cl.Stop()
 		if proof == "" {
 			return "", "inconclusive: action did not return within 3 s but the dump shows no self-deadlock", true
@@ -417,6 +493,19 @@ func runReentrancy(event, action, transport string) (key, msg string, reached bo
 	}
 	cl.Stop()
 	return "", "", true
+}
+
+// reentrancyProof looks for the goroutine that is inside the listener's action
+// (runReentrancy.func1 = act) and still waiting to acquire a lock of the code under test.
+func reentrancyProof() string {
+	buf := make([]byte, 1<<20)
+	n := runtime.Stack(buf, true)
+	for _, g := range strings.Split(string(buf[:n]), "\n\n") {
+		if strings.Contains(g, "runReentrancy.func1") && (strings.Contains(g, "sync.(*Mutex).Lock") || strings.Contains(g, "sync.(*RWMutex).Lock") || strings.Contains(g, "sync.(*RWMutex).RLock")) {
+			return rig.TopFrames(g, 14)
+		}
+	}
+	return ""
 }
 
 func TestC18(t *testing.T) {
@@ -442,6 +531,18 @@ func TestC18(t *testing.T) {
 		}
 		if key != "" {
 			r.Violation(key, msg, c)
+		}
+	}
+	if r.Lane == 3%r.Lanes {
+		for k := 0; k < r.N(8, 200); k++ {
+			key, msg, held := runC18DrainAcrossUpgrade(r)
+			r.Case("drain-across-upgrade", true)
+			if held {
+				r.Obs("gate:polling_writer_held_in_onDrain_across_upgrade", 1)
+			}
+			if key != "" {
+				r.Violation(key, msg, map[string]string{"lane": "drain-across-upgrade"})
+			}
 		}
 	}
 	cell := 0
